@@ -28,8 +28,8 @@ Theorem C01_aesgcm_round_trip :
 Proof.
   intros seal open_ HL HO v id key iv p ad c Hiv He.
   unfold aesgcm_dec. rewrite dec_lenfirst_canon.
-  apply (na_round_trip seal open_ 12 16 gcm_seal_max None gcm_tink_max _ key iv p ad c HL HO);
-    [intros m; discriminate | exact Hiv | exact He].
+  apply (na_round_trip seal open_ 12 16 gcm_seal_max None None gcm_tink_max _ key iv p ad c HL HO);
+    [intros m; discriminate | intros m; discriminate | exact Hiv | exact He].
 Qed.
 Print Assumptions C01_aesgcm_round_trip.
 
@@ -59,11 +59,11 @@ Theorem C01_chacha20poly1305_round_trip :
 Proof.
   intros seal open_ HL HO v id key iv p ad c Hiv. split; intros He.
   - unfold chacha_dec. rewrite dec_prefixfirst_canon.
-    apply (na_round_trip seal open_ 12 16 chacha_seal_max (Some chacha_open_max) (chacha_tink_max (output_prefix v id)) _ key iv p ad c HL HO);
-      [intros m E; inversion E; reflexivity | exact Hiv | exact He].
+    apply (na_round_trip seal open_ 12 16 chacha_seal_max (Some chacha_open_max) (Some chacha_tink_ct_max) (chacha_tink_max (output_prefix v id)) _ key iv p ad c HL HO);
+      [intros m E; inversion E; reflexivity | intros m E; inversion E; vm_compute; discriminate | exact Hiv | exact He].
   - unfold chacha_subtle_dec. rewrite dec_lenfirst_canon.
-    apply (na_round_trip seal open_ 12 16 chacha_seal_max (Some chacha_open_max) chacha_subtle_tink_max _ key iv p ad c HL HO);
-      [intros m E; inversion E; reflexivity | exact Hiv | exact He].
+    apply (na_round_trip seal open_ 12 16 chacha_seal_max (Some chacha_open_max) (Some chacha_tink_ct_max) chacha_subtle_tink_max _ key iv p ad c HL HO);
+      [intros m E; inversion E; reflexivity | intros m E; inversion E; vm_compute; discriminate | exact Hiv | exact He].
 Qed.
 Print Assumptions C01_chacha20poly1305_round_trip.
 
@@ -80,11 +80,11 @@ Theorem C01_xchacha20poly1305_round_trip :
 Proof.
   intros seal open_ HL HO v id key iv p ad c Hiv Hc. split; intros He.
   - unfold xchacha_dec. rewrite dec_lenprefix_canon by exact Hc.
-    apply (na_round_trip seal open_ 24 16 chacha_seal_max (Some chacha_open_max) xchacha_tink_max _ key iv p ad c HL HO);
-      [intros m E; inversion E; reflexivity | exact Hiv | exact He].
+    apply (na_round_trip seal open_ 24 16 chacha_seal_max (Some chacha_open_max) (Some chacha_tink_ct_max) xchacha_tink_max _ key iv p ad c HL HO);
+      [intros m E; inversion E; reflexivity | intros m E; inversion E; vm_compute; discriminate | exact Hiv | exact He].
   - unfold xchacha_subtle_dec. rewrite dec_lenfirst_canon.
-    apply (na_round_trip seal open_ 24 16 chacha_seal_max (Some chacha_open_max) xchacha_tink_max _ key iv p ad c HL HO);
-      [intros m E; inversion E; reflexivity | exact Hiv | exact He].
+    apply (na_round_trip seal open_ 24 16 chacha_seal_max (Some chacha_open_max) (Some chacha_tink_ct_max) xchacha_tink_max _ key iv p ad c HL HO);
+      [intros m E; inversion E; reflexivity | intros m E; inversion E; vm_compute; discriminate | exact Hiv | exact He].
 Qed.
 Print Assumptions C01_xchacha20poly1305_round_trip.
 
